@@ -133,8 +133,14 @@ func positionClasses(ps []vector3.Float64) []int {
 // execPrim builds one solid primitive and projects it: triangles over vertex
 // numbers, per-vertex position class, position * Scale, normal * 256.
 func execPrim(c Case, raw json.RawMessage) Line {
-	ln := emptyLine("prim", raw)
 	m, res, msg := guarded(2*time.Minute, func() modeling.Mesh { return buildPrim(c) })
+	return projectPrim(c, raw, m, res, msg)
+}
+
+// projectPrim is the projection of one returned mesh value. It reads the mesh
+// and nothing else, so it can be repeated later on a mesh the caller kept.
+func projectPrim(c Case, raw json.RawMessage, m modeling.Mesh, res, msg string) Line {
+	ln := emptyLine("prim", raw)
 	ln.Res, ln.Err = res, msg
 	if res != "OK" {
 		return ln
